@@ -130,7 +130,7 @@ impl Attribution {
 
 pub fn run(ctx: &mut Ctx) {
     let (cases, bound) = cases_for(ctx);
-    ctx.rule = "programs = all derivations of the reference grammar (expr operand/call, statements, nesting, TYPE forms, VAR blocks, located/access variables, POUs, configuration, SFC) with at most `deviation_bound` costly deviations from the simplest member of each production group (cost-0 choices such as host kind, slot and class are always fully expanded), plus complete tables: all 16x16 operator pairs, all same-level triples, mixed-level triples, all bracketings of 3 and 4 operands, unary placements; plus the cardinality family: 30 list productions x 24 sizes from 1 to 1000 (around 8, 16, 32, 64, 128, 256), every element marked; distinct = distinct program text".into();
+    ctx.rule = "programs = all derivations of the reference grammar (expr operand/call, statements, nesting, TYPE forms, VAR blocks, located/access variables, POUs, configuration, SFC) with at most `deviation_bound` costly deviations from the simplest member of each production group (cost-0 choices such as host kind, slot and class are always fully expanded), plus complete tables: all 16x16 operator pairs, all same-level triples, mixed-level triples, all bracketings of 3 and 4 operands, unary placements; plus every literal of the C09 space (its value is part of the tree); plus the cardinality family: 30 list productions x 24 sizes from 1 to 1000 (around 8, 16, 32, 64, 128, 256), every element marked; distinct = distinct program text".into();
     ctx.bounds.insert("deviation_bound".into(), json!(bound));
     ctx.assumptions.push("the expected tree is emitted by the generator from IEC 61131-3 Annex B (precedence table typed in from B.3.1), never by calling the parser; π erases DSL representation choices only (listed in DESIGN.md section 5)".into());
     ctx.assumptions.push("canonical 'tight' spelling: one blank between lexemes except at conventional tight positions; layout tolerance is C08's subject".into());
@@ -160,6 +160,21 @@ pub fn run(ctx: &mut Ctx) {
         }
         if ctx.want_sample(n as u64, total) {
             ctx.sample(json!({"case": c.id(), "text": crate::util::short(&text, 200), "expected_tree": crate::util::short(&c.nt.brief(), 300)}));
+        }
+    }
+    // literals: the structured literal space of C09 (values are part of the tree the parser returns)
+    let lits = crate::checks::c09::literals();
+    let lit_res: Vec<Option<(String, String)>> = lits.par_iter().map(crate::checks::c09::judge).collect();
+    for (l, r) in lits.iter().zip(lit_res.iter()) {
+        ctx.evaluations += 1;
+        ctx.transitions += 1;
+        ctx.distinct(&format!("literal|{}", l.pieces.join("")));
+        match r {
+            None => ctx.outcome("literal: read as its value, or rejected when it has none"),
+            Some((sym, what)) => {
+                ctx.outcome("literal: wrong");
+                ctx.fail(&format!("literal/{}#{}", l.label, sym), what, json!({"mode":"literal","label": l.label, "pieces": l.pieces}));
+            }
         }
     }
     // cardinality family: every list production with N elements (markers must all be carried, once, in order)
@@ -199,6 +214,14 @@ pub fn run(ctx: &mut Ctx) {
 }
 
 pub fn replay(case: &Value) -> Result<String, String> {
+    if case["mode"] == json!("literal") {
+        let pieces: Vec<String> = case["pieces"].as_array().ok_or("pieces")?.iter().map(|x| x.as_str().unwrap_or("").to_string()).collect();
+        let l = crate::checks::c09::literals().into_iter().find(|l| l.pieces == pieces).ok_or("literal is not in the enumerated space any more")?;
+        return match crate::checks::c09::judge(&l) {
+            None => Ok("read as its value".into()),
+            Some((s, w)) => Err(format!("{}: {}", s, w)),
+        };
+    }
     if case["mode"] == json!("cardinality") {
         let (prod, n) = (case["production"].as_str().ok_or("production")?, case["n"].as_u64().ok_or("n")? as usize);
         let c = gram::card::cases().into_iter().find(|c| c.production == prod && c.n == n).ok_or("unknown cardinality case")?;
